@@ -475,13 +475,75 @@ Theorem eval_adjacent_block ev fi s v s' :
 Proof.
   intros Hev Hw H. unfold eval_adjacent in H. destruct fi as [it|]; [|discriminate].
   remember (mkBest 0 s (missing_msg it s)) as best eqn:Eb. clear Eb.
-  revert best H. induction (adj_starts s (item_width it)) as [|st more IH]; intros best H; cbn in H;
-    [discriminate|].
+  revert best H. induction (adj_starts s (item_width it)) as [|st more IH]; intros best H; cbn [adj_outer] in H;
+    [adj_nil H|].
   destruct (adj_try ev s (item_width it) st best) as [v0 fin|best'|r sx] eqn:Ht.
   - inv H. destruct (adj_try_block _ _ _ _ _ _ _ Hev Hw Ht) as (b & H1 & H2 & H3). eauto.
   - eapply IH; eauto.
-  - inv H. pose proof (adj_try_scope ev s (item_width it) st best) as Hs. rewrite Ht in Hs. cbn in Hs.
-    exfalso. eapply Hs; eauto.
+  - pose proof (adj_try_scope ev s (item_width it) st best) as Hs. rewrite Ht in Hs. cbn in Hs.
+    inversion H as [[Hr Hx]]. exfalso. eapply Hs; eauto.
+Qed.
+
+(* ------------------------------------------------------------------ a failed group gives the scope back *)
+(* (fix: commit in /repo) the attempts of a group run in windows that start at the group's first item; when the group
+   fails, the state handed back -- the one of the attempt that got furthest -- carries the CALLER's scope again, so what
+   the caller looks for next (the help and version flags first of all) is looked for on the whole level *)
+Definition stop_only (st : adj_step) : Prop :=
+  match st with AStop (RPanic _) _ | AStop RFuel _ => True | AStop _ _ => False | _ => True end.
+
+Lemma adj_inner_stop_only ev orig before : forall fuel ta best, stop_only (adj_inner ev orig before fuel ta best).
+Proof.
+  induction fuel as [|f IH]; intros ta best; [exact I|].
+  unfold adj_inner; fold adj_inner. destruct (ev ta) as [r ta1]. destruct r; try exact I.
+  - destruct (adjacent_scope ta1 orig) as [| |a b]; try exact I.
+    + destruct (set_scope ta1 _ _); exact I.
+    + destruct (set_scope orig a b) as [ta'|]; [apply IH|exact I].
+  - destruct (Nat.ltb before (remaining ta1)); [exact I|].
+    destruct (Nat.ltb (b_consumed best) (before - remaining ta1)); exact I.
+Qed.
+
+Lemma adj_try_stop_only ev orig width start best : stop_only (adj_try ev orig width start best).
+Proof.
+  unfold adj_try.
+  destruct (set_scope orig start (length (items orig))) as [t0|]; [|exact I].
+  destruct (set_scope t0 start (start + width)) as [sc|]; [|exact I].
+  destruct (Nat.eqb (remaining sc) 0); [exact I|].
+  destruct (ev sc) as [r0 sc'].
+  assert (Hgo : stop_only (if Nat.eqb (remaining sc) (remaining sc') then ANext best
+                   else match set_scope t0 start (sc_end orig) with
+                        | None => AStop (RPanic P_set_scope) orig
+                        | Some this_arg1 =>
+                          match (if Nat.ltb (remaining this_arg1) (sc_end orig - start)
+                                 then let '(a, b) := adjacently_available_from this_arg1 start in set_scope this_arg1 a b
+                                 else Some this_arg1) with
+                          | None => AStop (RPanic P_set_scope) orig
+                          | Some this_arg2 => adj_inner ev orig (remaining this_arg1) (loop_fuel orig) this_arg2 best
+                          end
+                        end)).
+  { destruct (Nat.eqb (remaining sc) (remaining sc')); [exact I|].
+    destruct (set_scope t0 start (sc_end orig)) as [t1|]; [|exact I].
+    destruct (Nat.ltb (remaining t1) (sc_end orig - start)).
+    - destruct (adjacently_available_from t1 start) as [a b].
+      destruct (set_scope t1 a b) as [t2|]; [apply adj_inner_stop_only|exact I].
+    - apply adj_inner_stop_only. }
+  destruct r0; try exact I; exact Hgo.
+Qed.
+
+Lemma adj_outer_err_scope ev orig width : forall starts best e s',
+  adj_outer ev orig width starts best = (RErr e, s') -> same_scope orig s'.
+Proof.
+  induction starts as [|st more IH]; intros best e s' H; cbn [adj_outer] in H.
+  - destruct (set_scope (b_args best) (sc_start orig) (sc_end orig)) as [fin|] eqn:E; [|discriminate].
+    inversion H; subst. apply set_scope_fields in E. unfold same_scope. tauto.
+  - pose proof (adj_try_stop_only ev orig width st best) as Hs.
+    destruct (adj_try ev orig width st best) as [v fin|best'|r sx]; [discriminate|eapply IH; eauto|].
+    inversion H; subst. cbn in Hs. contradiction.
+Qed.
+
+Theorem adjacent_err_scope ev fi s e s' :
+  eval_adjacent ev fi s = (RErr e, s') -> same_scope s s'.
+Proof.
+  unfold eval_adjacent. destruct fi as [it|]; [|discriminate]. apply adj_outer_err_scope.
 Qed.
 
 (* ------------------------------------------------------------------ which block is taken *)
@@ -494,14 +556,14 @@ Theorem adj_outer_first ev orig width : forall starts best v fin,
     adj_try ev orig width start best' = AReturn v fin /\
     (forall st, In st before -> exists b0 b1, adj_try ev orig width st b0 = ANext b1).
 Proof.
-  induction starts as [|st more IH]; intros best v fin H; cbn [adj_outer] in H; [discriminate|].
+  induction starts as [|st more IH]; intros best v fin H; cbn [adj_outer] in H; [adj_nil H|].
   destruct (adj_try ev orig width st best) as [v0 s0|best'|r s0] eqn:E.
   - inversion H; subst. exists [], st, more, best. split; [reflexivity|]. split; [exact E|]. intros x [].
   - destruct (IH best' v fin H) as (before & start & after & b' & Hs & Ht & Hb).
     exists (st :: before), start, after, b'. split; [cbn; rewrite Hs; reflexivity|]. split; [exact Ht|].
     intros x [<-|Hx]; [eauto|apply Hb, Hx].
-  - inversion H; subst. pose proof (adj_try_scope ev orig width st best) as Hs. rewrite E in Hs. cbn in Hs.
-    exfalso. eapply Hs; eauto.
+  - pose proof (adj_try_scope ev orig width st best) as Hs. rewrite E in Hs. cbn in Hs.
+    inversion H as [[Hr Hx]]. exfalso. eapply Hs; eauto.
 Qed.
 
 Lemma adj_starts_sorted s width : forall i j a b,
